@@ -59,7 +59,9 @@ func checkC17(tier string) {
 func checkC18(tier string) {
 	rep := newReporter("C18", tier)
 	comparable := []string{"int", "string", "Flat", "float64", "[2]int"}
-	noncomp := []string{"[]int", "*Flat", "Heap", "Fl", "map[string]int", "[]float32", "[]complex64", "map[[2]uint8]int", "*Und"}
+	noncomp := []string{"[]int", "*Flat", "Heap", "Fl", "map[string]int", "[]float32", "[]complex64", "map[[2]uint8]int", "*Und",
+		// ==-comparable in Go, but by the identity of the pointers inside: Equal tuples need the hash path
+		"[2]*Flat", "PB"}
 	results := []string{"int", "string", "[]int", "Flat", "*int"}
 	var sigs []string
 	seen := map[string]bool{}
@@ -131,7 +133,7 @@ func checkC18(tier string) {
 	}
 	env := []string{"VERIF_ELEMK=3", "VERIF_FUEL=3", "VERIF_HISTLEN=" + hist}
 	res := runE1(cases, "C18", 20, env, 1)
-	aggregateE1(rep, "C18", cases, res, fmt.Sprintf("%d signatures with 0..3 parameters over comparable {int,string,Flat,float64,[2]int} and non-comparable {[]int,*Flat,Heap,Fl,map[string]int,[]float32,[]complex64,map[[2]uint8]int,*Und} types and 0..3 results; all call sequences up to length %s over an alphabet of 4 argument tuples (two Equal-but-not-identical, two differing in the last position only) plus a +0/-0 pair per floating point leaf type and up to three hash-colliding non-Equal pairs (one per kind of difference) found by brute force with the derived Hash", len(sigs), hist),
+	aggregateE1(rep, "C18", cases, res, fmt.Sprintf("%d signatures with 0..3 parameters over comparable {int,string,Flat,float64,[2]int} and non-comparable {[]int,*Flat,Heap,Fl,map[string]int,[]float32,[]complex64,map[[2]uint8]int,*Und,[2]*Flat,PB (struct value holding a pointer)} types and 0..3 results; all call sequences up to length %s over an alphabet of 4 argument tuples (two Equal-but-not-identical, two differing in the last position only) plus a +0/-0 pair per floating point leaf type and up to three hash-colliding non-Equal pairs (one per kind of difference) found by brute force with the derived Hash", len(sigs), hist),
 		"state = one call history (sequence of argument tuples) on a fresh memoised function; transition = one call of the memoised function, result compared with f's and f's evaluation count compared with the number of Equal-classes seen so far; non-trivial = histories containing a repeat that must be served from memory")
 	rep.Finish()
 }
